@@ -269,6 +269,16 @@ def take_periods(prop, tier, seed):
     return dict(bounded=b)
 
 
+@provider('C20')
+def order_zones(prop, tier, seed):
+    rng = random.Random(seed + 83)
+    cases = [dict(tz=tz, start=st, hours=30, windows=[(2, 5), (4, 9), (20, 30)], given=g, form=f)
+             for tz in ('CET', 'US/Eastern', None) for st in ('2021-03-27', '2021-07-01') for g in (('naive',) if tz is None else ('naive', 'same', 'UTC', 'Asia/Tokyo')) for f in ('dict', 'frame', 'arrays')]
+    rng.shuffle(cases)
+    return dict(bounded=run_cases(sc.check_order_zones, cases[:_n(tier, 24, 60)], 'order windows given as naive dates / zone-aware instants in the grid zone or another zone, as dictionary of lists, of arrays, or as DataFrame, on naive / CET / US-Eastern grids incl. a DST switch: every order is delivered exactly in the steps of its window',
+                                  'hourly grids of 30 steps, 3 orders', 30 if tier == 'quick' else 90))
+
+
 @provider('C08')
 def window_zones(prop, tier, seed):
     rng = random.Random(seed + 61)
@@ -306,6 +316,9 @@ def stochastic(prop, tier, seed):
         # unit commitment next to multi-row variables (the boolean flags of the extended problem must stay on the plant's variables)
         T = rng.randint(4, 6)
         cases.append(dict(T=T, k=rng.randint(1, T - 1), S=rng.randint(1, 2), transport=j % 3 != 2, plant=True, internal=False, identical=j % 2 == 0, seed=rng.randint(0, 99999)))
+    # storages with binary variables (no simultaneous charge / discharge, maximum holding duration)
+    cases.insert(2, dict(T=5, k=2, S=2, transport=False, internal=False, identical=False, nosimult=True, seed=rng.randint(0, 99999)))
+    cases.insert(5, dict(T=6, k=3, S=1, transport=True, internal=False, identical=True, max_dur=3., seed=rng.randint(0, 99999)))
     b1 = run_cases(sc.check_slp, cases, 'make_slp on storage portfolios (optionally with a multi-row transport, with a unit-commitment plant (booleans) and with a structured asset whose internal variables are not of dispatch type) with 1-3 sampled futures sharing the present prices: block structure, cost scaling, EEV <= V_slp <= mean of scenario optima, = deterministic optimum for identical scenarios',
                    'hourly grids of 4-8 steps, present/future boundary anywhere', 50 if tier == 'quick' else 300)
     b2 = run_cases(sc.check_robust, cases[:_n(tier, 6, 30)], 'robust target over the cost vectors of 2-4 scenarios: worst case of the robust solution vs single-scenario solutions and vs the smallest scenario optimum',
